@@ -59,6 +59,18 @@ PINS = [
     'mesonbuild.mintro:write_intro_info',
     'mesonbuild.dependencies.base:Dependency.__init__',
     'mesonbuild.depfile:DepFile.get_all_dependencies',
+    'mesonbuild.build:BuildTarget.rpaths_for_non_system_absolute_shared_libraries',
+    'mesonbuild.build:BuildTarget.determine_rpath_dirs',
+    'mesonbuild.build:BuildTarget.get_external_rpath_dirs',
+    'mesonbuild.build:BuildTarget.get_rpath_dirs_from_link_args',
+    'mesonbuild.build:BuildTarget.get_link_dep_subdirs',
+    'mesonbuild.build:BuildTarget.get_all_link_deps',
+    'mesonbuild.build:BuildTarget.get_dependencies',
+    'mesonbuild.linkers.linkers:GnuLikeDynamicLinkerMixin.build_rpath_args',
+    'mesonbuild.dependencies.pkgconfig:PkgConfigDependency._search_libs',
+    'mesonbuild.dependencies.pkgconfig:PkgConfigDependency._set_libs',
+    'mesonbuild.backend.ninjabackend:NinjaBackend.generate_link',
+    'mesonbuild.backend.ninjabackend:NinjaBackend.guess_external_link_dependencies',
     'mesonbuild.interpreter.interpreter:Interpreter.add_build_def_file',
     'mesonbuild.interpreter.interpreter:Interpreter.func_configure_file',
     'mesonbuild.interpreter.interpreter:Interpreter.run_command_impl',
@@ -792,8 +804,21 @@ def run(ctx: Ctx) -> None:
     for r in sites['unreachable']:
         ctx.assumptions.append(f'unordered collection not driven by the corpus: {r[0]} — {r[2]}')
     for r in sites['unclassified']:
-        ctx.assumptions.append(f'unordered collection NOT REVIEWED (new since the table was written): {r[0]}')
-        ctx.notes.append(f'unreviewed unordered-collection site: {r[0]}')
+        # a place that creates an unordered collection in configure-time code and is neither in the reviewed table
+        # nor driven by a corpus project: the exploration cannot vouch for it -> failed obligation (and search)
+        ctx.obligation_failed('unordered-site-table', f'{r[0]} creates an unordered collection (or lists a directory / the '
+                              'environment) in configure-time code; it is not in the reviewed table of harness/c06_sites.py and no '
+                              'corpus project is known to drive it')
+    lc = c06_sites.link_collections()
+    ctx.extra['link_collections'] = lc
+    ctx.extra['link_collections_total'] = len(lc)
+    ctx.extra['link_collections_reached'] = sum(1 for r in lc if not r['reached_by'].startswith(('not reachable', 'NOT REVIEWED')))
+    for r in lc:
+        if r['reached_by'] == 'NOT REVIEWED':
+            ctx.notes.append(f'ordered collection on the way to link arguments not reviewed: {r["function"]}')
+            ctx.assumptions.append(f'ordered collection feeding link arguments NOT REVIEWED: {r["function"]}')
+        elif r['reached_by'].startswith('not reachable'):
+            ctx.assumptions.append(f'ordered collection feeding link arguments not driven: {r["function"]} — {r["reached_by"]}')
     ctx.assumptions += TRUSTED
     ctx.extra['explanation'] = (
         'Lean proves, for every input, that the modelled emitters (sorted deps/orderdeps of NinjaBuildElement.write, '
@@ -818,6 +843,14 @@ def search(ctx: Ctx, disagreements: T.List[dict]) -> None:
     kinds = {d['kind'] for d in disagreements} or None
     if ctx.obligations_failed:
         kinds = None
+    if any(o.startswith('unordered-site-table') for o in ctx.obligations_failed) and not ctx.deep:
+        # code the exploration was not designed for: repeat the whole-system layer at thorough size
+        ctx.deep = True
+        root0 = common.scratch_dir('c06-')
+        try:
+            system_layer(ctx, root0)()
+        finally:
+            S.force_rmtree(root0)
     cases = gen_cases(ctx, mult=4, only=kinds)
     seeds = [str(i) for i in range(4)] + [str(ctx.rng.randint(4, 2**32 - 1)) for _ in range(8)]
     inproc_layer(ctx, cases, seeds, compare_model=False)
